@@ -21,6 +21,7 @@ class Audit:
     def __init__(self):
         self.rules = []  # (rule, what, dropped_text, item)
         self.items = []  # dict per extracted item
+        self.lost_hints = []  # (item, anchor, n_matches)
 
     def add(self, rule, what, dropped, item):
         self.rules.append({'rule': rule, 'what': what, 'dropped': dropped[:160], 'item': item})
@@ -466,10 +467,17 @@ def inject(toks, body_open, spec, ret, ats, loops, sigparams, audit, item, verus
     for mode, anchor, snippet in ats:
         if not _starts_with(snippet, STMT_STARTS):
             raise ExtractError(f"{item}: injected statement must be ghost (proof/assert/let ghost): {snippet[:40]!r}")
+        if mode == 'start':
+            inserts.append((body_open + 1, '\n\t\t' + snippet.strip() + '\n\t\t'))
+            n_inj += 1
+            continue
         needle = sig_tokens(lex(anchor))
         hits = find_token_seq(toks, needle, body_open, body_close + 1)
         if len(hits) != 1:
-            raise ExtractError(f"ANCHOR-LOST {item}: statement anchor {anchor!r} has {len(hits)} matches")
+            # a lost *hint* anchor degrades the proof instead of silencing the unit: the hint is dropped, the
+            # function is still verified; a failure of a degraded function is decided by its Kani twin (or is undecided)
+            audit.lost_hints.append((item, anchor, len(hits)))
+            continue
         a, b = hits[0]
         if mode == 'at':
             inserts.append((a, snippet.strip() + '\n\t\t'))
@@ -780,6 +788,8 @@ def extract_item(kind, kv, sections, unit_rewrites, extra_drop, audit, verus):
         elif d in ('at', 'after'):
             mm = re.match(r'^"((?:[^"\\]|\\.)*)"', arg)
             ats.append((d, unq(mm.group(1)), btxt))
+        elif d == 'start':
+            ats.append(('start', '', btxt))
         elif d == 'loop':
             la = arg.split()
             itname = None
@@ -834,7 +844,8 @@ def extract_item(kind, kv, sections, unit_rewrites, extra_drop, audit, verus):
                 t = lex('pub ' + text(t))
                 audit.add('R1', 'item made pub', '', item)
         final = text(t)
-    info = dict(name=name, emitted_name=as_name or name, kind=kind, file=relpath, scope=scope,
+    degraded = [a for (it, a, n) in audit.lost_hints if it == item]
+    info = dict(name=name, emitted_name=as_name or name, kind=kind, file=relpath, scope=scope, degraded=degraded,
                 src_start=src_start, src_end=src_end, sha=sha, known=kv.get('known'),
                 twin=kv.get('twin'))
     audit.items.append(info)
